@@ -12,6 +12,8 @@ import (
 	"strings"
 
 	"github.com/Oneledger/protocol/action"
+	acteth "github.com/Oneledger/protocol/action/eth"
+	ethchain "github.com/Oneledger/protocol/chains/ethereum"
 	govact "github.com/Oneledger/protocol/action/governance"
 	netdel "github.com/Oneledger/protocol/action/network_delegation"
 	onsact "github.com/Oneledger/protocol/action/ons"
@@ -23,6 +25,7 @@ import (
 	"github.com/Oneledger/protocol/data/ons"
 	"github.com/Oneledger/protocol/external_apps/bid/bid_action"
 	"github.com/Oneledger/protocol/external_apps/bid/bid_data"
+	ethcommon "github.com/ethereum/go-ethereum/common"
 )
 
 // kind codes K_* of coq/theories/LedgerTx.v
@@ -330,6 +333,95 @@ func c02PreTx(r *c02Runner, before *c02View, tx *action.SignedTx) c02Pre {
 	return func(gasUsed int64, ok bool) string {
 		fee := new(big.Int).Mul(big.NewInt(gasUsed), price)
 		return fmt.Sprintf("fun _ => tx_ops (%s) %d %d %s", eff, payer, fp, c02Z(fee.String()))
+	}
+}
+
+// c02EthStep: wrapped-currency bookkeeping per tracker (tracker name = hash of the embedded transaction bytes):
+//   ETH_LOCK accepted      -> the lock's value (decoded by go-ethereum from the embedded transaction) may be minted once;
+//   ETH_REDEEM accepted    -> what the step burnt (observed decrease of the owner's ETH balance) may be refunded once;
+//   ETH_REPORT_FINALITY    -> if the wrapped total rises in this step, the allowance is the pending amount of THAT tracker
+//                             ("refund of tracker T = amount burnt at T's creation", "mint of T = value locked by T").
+// Also sets the model of the step (LedgerTx.effect_eth_*).
+func c02EthStep(r *c02Runner, before, after *c02View, tx *action.SignedTx, s *c02Step) {
+	if r.ethLock == nil {
+		r.ethLock, r.ethBurnt = map[string]*big.Int{}, map[string]*big.Int{}
+	}
+	ethCur := r.in.cur("ETH")
+	bal := func(v *c02View, a keys.Address) *big.Int {
+		if x := v.Led[c02Key{a.String(), c02BBal, "ETH", ""}]; x != nil {
+			return x
+		}
+		return new(big.Int)
+	}
+	feeTerm := func() string {
+		h0, err := tx.Signatures[0].Signer.GetHandler()
+		if err != nil {
+			return ""
+		}
+		// the fee is what the payer's OLT balance lost in this step (gas x price; the ETH kinds charge an upfront gas amount)
+		k := c02Key{h0.Address().String(), c02BBal, "OLT", ""}
+		d := new(big.Int)
+		if b0 := before.Led[k]; b0 != nil {
+			d.Set(b0)
+		}
+		if b1 := after.Led[k]; b1 != nil {
+			d.Sub(d, b1)
+		}
+		return fmt.Sprintf("fee_ops %d %d %s", r.in.owner(h0.Address().String()), r.in.owner(c02FeePoolOwner), c02Z(d.String()))
+	}
+	switch tx.Type {
+	case action.ETH_LOCK:
+		m := &acteth.Lock{}
+		if json.Unmarshal(tx.Data, m) != nil || !s.OK {
+			return
+		}
+		if etx, err := ethchain.DecodeTransaction(m.ETHTxn); err == nil {
+			r.ethLock[ethcommon.BytesToHash(m.ETHTxn).Hex()] = new(big.Int).Set(etx.Value())
+		}
+		s.Model = fmt.Sprintf("fun _ => Some (%s)", feeTerm())
+	case action.ETH_REDEEM:
+		m := &acteth.Redeem{}
+		if json.Unmarshal(tx.Data, m) != nil || !s.OK {
+			return
+		}
+		burnt := new(big.Int).Sub(bal(before, m.Owner), bal(after, m.Owner))
+		r.ethBurnt[ethcommon.BytesToHash(m.ETHTxn).Hex()] = burnt
+		// the model burns the amount of the redeem(uint256) call of the embedded transaction, as the refund will read it
+		amt := "(-1)"
+		if o, err := governance.NewStore("g", r.rep.A.VerifDeliver()).GetETHChainDriverOption(); err == nil {
+			if req, err := ethchain.ParseRedeem(m.ETHTxn, o.ContractABI); err == nil {
+				amt = c02Z(req.Amount.String())
+			}
+		}
+		s.Model = fmt.Sprintf("fun _ => match effect_eth_redeem_burn %d %d %s with Some ops => Some (ops ++ %s) | None => None end", r.in.owner(m.Owner.String()), ethCur, amt, feeTerm())
+	case action.ETH_REPORT_FINALITY_MINT:
+		m := &acteth.ReportFinality{}
+		if json.Unmarshal(tx.Data, m) != nil || !s.OK {
+			return
+		}
+		name := ethcommon.BytesToHash(m.TrackerName.Bytes()).Hex()
+		rose := false
+		var who string
+		for k, a := range after.Led {
+			if k.Bucket == c02BBal && k.Cur == "ETH" {
+				if old := before.Led[k]; old == nil || old.Cmp(a) < 0 {
+					rose, who = true, k.Owner
+				}
+			}
+		}
+		if !rose {
+			s.Model = "fun _ => Some []"
+			return
+		}
+		if a, ok := r.ethLock[name]; ok {
+			delete(r.ethLock, name)
+			s.AllowC = append(s.AllowC, c02Rec{C: ethCur, Amt: a.String()})
+			s.Model = fmt.Sprintf("fun _ => Some (effect_eth_lock_mint %d %d %s)", r.in.owner(who), ethCur, c02Z(a.String()))
+		} else if a, ok := r.ethBurnt[name]; ok {
+			delete(r.ethBurnt, name)
+			s.AllowC = append(s.AllowC, c02Rec{C: ethCur, Amt: a.String()})
+			s.Model = fmt.Sprintf("fun _ => Some (effect_eth_redeem_refund %d %d %s)", r.in.owner(who), ethCur, c02Z(a.String()))
+		}
 	}
 }
 
